@@ -83,11 +83,13 @@ impl NameReg {
         // To avoid clashing with already picked names, we add a numeric suffix to the picked
         // letter.
         if self.taken(&name) {
+            let base = name;
             let mut suffix = 1;
 
-            name = format!("{name}{suffix}");
+            name = format!("{base}{suffix}");
             while self.taken(&name) {
                 suffix += 1;
+                name = format!("{base}{suffix}");
             }
         }
 
